@@ -314,7 +314,10 @@ def run_stat(c):
     def circ():
         apply_circuit(c["gates"])
         out = [qp.sample(wires=c["ws"]) if c["ws"] else qp.sample()]
-        return tuple(out + [qp.sample(o) for o in obs])
+        out = out + [qp.sample(o) for o in obs]
+        if n >= 2:      # a two-wire observable with four DISTINCT eigenvalues (value k+1 on basis state k of wires (n-1, 0))
+            out.append(qp.sample(qp.Hermitian(np.diag([1.0, 2.0, 3.0, 4.0]), wires=[n - 1, 0])))
+        return tuple(out)
     sv = c["sv"]
     shots = tuple(sv) if len(sv) > 1 else sv[0]
     qn = qp.set_shots(qp.QNode(circ, dev, interface=interface), shots)
@@ -323,18 +326,22 @@ def run_stat(c):
     psi = exact_state(n, c["gates"])
     pfull = psi.real ** 2 + psi.imag ** 2
     pw = np.array([1 << (len(ws) - 1 - i) for i in range(len(ws))])
-    hists, ohists = [], []
+    hists, ohists, vhists = [], [], []
     for r in rows:
         a = np.asarray(r[0]).astype(np.int64)
         hists.append(np.bincount(a @ pw, minlength=2 ** len(ws)).tolist())
-        ohists.append([[int((np.asarray(x) > 0).sum()), int((np.asarray(x) < 0).sum())] for x in r[1:]])
+        ohists.append([[int((np.asarray(x) > 0).sum()), int((np.asarray(x) < 0).sum())] for x in r[1:1 + len(obs)]])
+        if n >= 2:
+            v = np.rint(np.asarray(r[1 + len(obs)])).astype(int)
+            vhists.append([int((v == k).sum()) for k in (1, 2, 3, 4)] + [int(((v < 1) | (v > 4)).sum())])
     # P(+1) for +-1 observables from the exact state
     pplus = []
     for o in obs:
         mat = qp.matrix(o, wire_order=list(range(n)))
         ev = float(np.real(np.vdot(psi, mat @ psi)))
         pplus.append((1 + ev) / 2)
-    return {"hists": hists, "p": own_marginal(pfull, n, ws).tolist(), "ohists": ohists, "pplus": pplus}
+    return {"hists": hists, "p": own_marginal(pfull, n, ws).tolist(), "ohists": ohists, "pplus": pplus,
+            "vhists": vhists, "pv": own_marginal(pfull, n, [n - 1, 0]).tolist() if n >= 2 else None}
 
 
 def guarded(f, c):
